@@ -1133,8 +1133,11 @@ class Processor:
                 else:
                     sliced_elements = []
                     for slice_index in range(intmin, intmax):
+                        # Each element is identified by its own index so a
+                        # change reaches every element of the slice, not
+                        # only the first; deletions run in reverse order.
                         sliced_elements.append(NodeCoords(
-                            data[slice_index], data, intmin,
+                            data[slice_index], data, slice_index,
                             translated_path + "[{}]".format(slice_index),
                             ancestry + [(data, slice_index)], pathseg))
                     yield NodeCoords(
